@@ -41,17 +41,19 @@ structure Cfg where
   checkAfterRead : Bool
   versionOr : Bool
   indexChecked : Bool
+  lengthChecked : Bool
   deriving Repr, DecidableEq
 
 /-- the reader as it is in the source tree the check runs on -/
 def Cfg.current : Cfg :=
   { checkAfterRead := Gen.Archive.checkAfterRead, versionOr := Gen.Archive.versionOr,
-    indexChecked := Gen.Archive.indexChecked }
+    indexChecked := Gen.Archive.indexChecked, lengthChecked := Gen.Archive.lengthChecked }
 
 /-- every defect of the reader repaired -/
-def Cfg.fixed : Cfg := { checkAfterRead := true, versionOr := true, indexChecked := true }
+def Cfg.fixed : Cfg := { checkAfterRead := true, versionOr := true, indexChecked := true, lengthChecked := true }
 /-- the reader of the unrepaired tree (used by the counter-example theorems) -/
-def Cfg.legacy : Cfg := { checkAfterRead := false, versionOr := false, indexChecked := false }
+def Cfg.legacy : Cfg :=
+  { checkAfterRead := false, versionOr := false, indexChecked := false, lengthChecked := false }
 
 /-- `version_info_t` -/
 structure Info where
@@ -233,6 +235,7 @@ def readStr (cfg : Cfg) (init : Bytes) (s : RS) : Res Bytes :=
   (readData cfg (Prim.size).tag 8 none s).bind fun lb s =>
     let n := unle lb
     if n = 0 then .ok init s
+    else if cfg.lengthChecked && n > s.rest.length then .err .streamFail s
     else if n ≥ allocLimit then .err .alloc s
     else readData cfg rawTag n (some (resized init n)) s
 
@@ -310,7 +313,8 @@ def readHeader (cfg : Cfg) (info : Info) (s : RS) : Res Unit :=
         if bad then .err .wrongVersion s else
         (readStr cfg info.name s).bind fun _ s =>
           (readPrim cfg .u32 s).bind fun n s =>
-            if n * 8 ≥ allocLimit then .err .alloc s
+            if cfg.lengthChecked && n > s.rest.length / 8 then .err .invalidHeader s
+            else if n * 8 ≥ allocLimit then .err .alloc s
             else .ok () { s with table := List.replicate n 0 }
 
 mutual
